@@ -9,11 +9,11 @@
    3. every aggregate class satisfies the laws (X_hom) and its read-out is the textbook formula over the group's
       non-null values (X_direct); moment aggregates over R (exact arithmetic), with the arithmetic of
       update_moments / merge_moments regenerated from stat_counter.py into PV.Gen.AggMoments.
-   Open finding (model reproduces it): Last without ignore_nulls has no right unit, so it is lawful for
-   groupBy / rollup / cube (C14_last_hom_partial) but not under pivot (C14_last_pivot_refuted). *)
+   All 20 aggregate classes satisfy the full laws (Last since the repair cee87a5 of the finding of this check). *)
 From Coq Require Import ZArith List Bool Reals Permutation.
 Require Import PV.Base.Num PV.Base.NumR PV.Base.NumSqrt PV.Gen.AggMoments.
-Require Import PV.Model.Agg PV.Proofs.AggGrouped PV.Proofs.AggInstances PV.Proofs.AggMoments PV.Proofs.AggSubtotals.
+Require Import PV.Model.Agg PV.Proofs.AggGrouped PV.Proofs.AggInstances PV.Proofs.AggMoments PV.Proofs.AggSubtotals
+  PV.Proofs.AggPerm.
 Import ListNotations.
 
 (** * 1. the partition driver *)
@@ -55,6 +55,17 @@ Theorem C14_partition_independent_exact :
     forall ps : list (list Row),
       g_result A (g_aggregate keqb key A ps) = g_result A (g_aggregate keqb key A [concat ps]).
 Proof. exact partition_independent_exact. Qed.
+
+(* a different assignment of the rows to partitions only permutes the concatenation: for aggregators whose fold does not
+   depend on the row order the result has the same keys and an equivalent state for every key *)
+Theorem C14_assignment_independent :
+  forall (Row K S O : Type) (keqb : K -> K -> bool) (key : Row -> K) (A : aggregator Row S O),
+    (forall a b, keqb a b = true <-> a = b) ->
+    forall eqS : S -> S -> Prop, perm_invariant A eqS ->
+    forall rows rows', Permutation rows rows' ->
+      (forall k, In k (first_keys keqb (map key rows)) <-> In k (first_keys keqb (map key rows')))
+      /\ (forall k, eqS (a_fold A (rows_of keqb key k rows)) (a_fold A (rows_of keqb key k rows'))).
+Proof. exact spec_perm. Qed.
 
 (** * 2. combinators *)
 Theorem C14_stats_list_hom :
@@ -110,6 +121,14 @@ Theorem C14_set_up_to_set_equality :
       Permutation (a_fold (set_agg eqb get outf) rows) (a_fold (set_agg eqb get outf) rows').
 Proof. exact set_states_perm. Qed.
 
+Theorem C14_set_order_insensitive :
+  forall Row E O (eqb : E -> E -> bool) (get : Row -> option E) (outf : list E -> O),
+    (forall a b, eqb a b = true <-> a = b) -> perm_invariant (set_agg eqb get outf) (@Permutation E).
+Proof. exact set_perm_invariant. Qed.
+Theorem C14_collect_list_order_insensitive :
+  forall Row E (get : Row -> option E), perm_invariant (collect_list_agg get) (@Permutation E).
+Proof. exact collect_list_perm_invariant. Qed.
+
 (* first (with and without ignore_nulls): exact, full laws *)
 Theorem C14_first_hom :
   forall (Ops : NumOps) Row (get : Row -> @cell Ops) ign, agg_laws (first_agg get ign) eq eq.
@@ -119,17 +138,10 @@ Theorem C14_first_direct :
     a_out (first_agg get ign) (a_fold (first_agg get ign) rows) = first_direct get ign rows.
 Proof. exact @first_out_direct. Qed.
 
-(* last *)
-Definition C14_last_hom_full : Prop :=
+(* last (with and without ignore_nulls): exact, full laws (repaired by cee87a5: a partial that saw no row is skipped) *)
+Theorem C14_last_hom :
   forall (Ops : NumOps) Row (get : Row -> @cell Ops) ign, agg_laws (last_agg get ign) eq eq.
-(* proved: the homomorphism on non-empty row lists (all that groupBy / rollup / cube merge) for both flags, and the
-   full laws with ignore_nulls; missing for ignore_nulls = false: a fresh copy is not a right unit of mergeStats *)
-Theorem C14_last_hom_partial :
-  forall (Ops : NumOps) Row (get : Row -> @cell Ops),
-    (forall ign, agg_laws_ne (last_agg get ign) eq eq) /\ agg_laws (last_agg get true) eq eq.
-Proof. exact @last_laws_partial. Qed.
-Theorem C14_last_pivot_refuted : ~ C14_last_hom_full.
-Proof. exact last_hom_full_refuted. Qed.
+Proof. exact @last_laws. Qed.
 Theorem C14_last_direct :
   forall (Ops : NumOps) Row (get : Row -> @cell Ops) ign rows,
     a_out (last_agg get ign) (a_fold (last_agg get ign) rows) = last_direct get ign rows.
@@ -149,6 +161,19 @@ Proof. exact stat_laws. Qed.
 Theorem C14_mergeStats_concat :
   forall xs ys : list (@num ROps), csh_merge (csh_of xs) (csh_of ys) = csh_of (xs ++ ys).
 Proof. exact csh_merge_of. Qed.
+
+(* count, the value of sum and the central moments do not depend on the order of the rows, and they determine
+   count / avg / variance / stddev / skewness / kurtosis *)
+Theorem C14_stat_order_insensitive :
+  forall Row O (getn : Row -> option (@num ROps)) (outf : @csh ROps -> O),
+    perm_invariant (stat_agg (get_of _ getn) outf) csh_eqv.
+Proof. exact stat_perm_invariant. Qed.
+Theorem C14_stat_readouts_determined :
+  forall s t : @csh ROps, csh_eqv s t ->
+    csh_count s = csh_count t /\ csh_avg s = csh_avg t /\ csh_var_pop s = csh_var_pop t /\
+    csh_var_samp s = csh_var_samp t /\ csh_std_pop s = csh_std_pop t /\ csh_std_samp s = csh_std_samp t /\
+    csh_skew s = csh_skew t /\ csh_kurt s = csh_kurt t.
+Proof. exact csh_eqv_readouts. Qed.
 
 (* the moment fields are the textbook central sums: sum of (x - mean)^k, k = 2, 3, 4 (definition of csh_of);
    the regenerated kernels maintain them: *)
@@ -295,15 +320,15 @@ Example ex_groupby_two_partitions :
   = ex_res [([CNum (NI 1)], [OCell (CNum (NI 3)); OCell (CNum (NI 1))])].
 Proof. vm_cast_no_check (@eq_refl _ (ex_res [([CNum (NI 1)], [OCell (CNum (NI 3)); OCell (CNum (NI 1))])])). Qed.
 
-Example ex_last_pivot_defect_two_partitions :
-  (* the open finding: last(v) under pivot over two partitions yields null for slot "a" ... *)
+Example ex_last_pivot_two_partitions :
+  (* regression of the repaired finding: last(v) under pivot over two partitions keeps slot "a" ... *)
   run_agg GroupBy [0%nat] (Some (1%nat, Some [CStr [97%N]; CStr [98%N]])) [(ALast, [2%nat])]
           [[ex_row3 1 97 3]; [ex_row3 1 98 4]]
-  = ex_res [([CNum (NI 1)], [OCell CNull; OCell (CNum (NI 4))])].
-Proof. vm_cast_no_check (@eq_refl _ (ex_res [([CNum (NI 1)], [OCell CNull; OCell (CNum (NI 4))])])). Qed.
+  = ex_res [([CNum (NI 1)], [OCell (CNum (NI 3)); OCell (CNum (NI 4))])].
+Proof. vm_cast_no_check (@eq_refl _ (ex_res [([CNum (NI 1)], [OCell (CNum (NI 3)); OCell (CNum (NI 4))])])). Qed.
 
-Example ex_last_pivot_defect_one_partition :
-  (* ... while the single partition gives 3 *)
+Example ex_last_pivot_one_partition :
+  (* ... like the single partition *)
   run_agg GroupBy [0%nat] (Some (1%nat, Some [CStr [97%N]; CStr [98%N]])) [(ALast, [2%nat])]
           [[ex_row3 1 97 3; ex_row3 1 98 4]]
   = ex_res [([CNum (NI 1)], [OCell (CNum (NI 3)); OCell (CNum (NI 4))])].
